@@ -21,7 +21,8 @@ From LW Require Import Base.Sx Base.Num Base.Sums Base.Mat Model.State Model.Foc
 Import ListNotations.
 Open Scope nat_scope.
 
-(* python dict equality of two herald dictionaries (keys of a dict are distinct) *)
+(* python dict equality of two herald dictionaries (keys of a dict are distinct);
+   the guard of Analyzer.analyze before fix e8102ee *)
 Definition hd_eqb (a b : hdict) : bool :=
   Nat.eqb (length a) (length b) &&
   forallb (fun kv => match hlookup b (fst kv) with Some v => Z.eqb v (snd kv) | None => false end) a.
@@ -169,16 +170,16 @@ Section Analyzer.
     ar_perf : K;                        (* results.performance *)
     ar_err : option (option K) }.       (* results.error_rate: absent | nan | value *)
 
-  (* the photon number handed to _generate_outputs: full_inputs[0].n_photons,
-     i.e. INCLUDING the photons of the input heralds *)
-  Definition an_nphotons (fins : list (list nat)) : nat := osum (hd [] fins).
+  (* the photon number handed to _generate_outputs: inputs[0].n_photons, the
+     photons the user put in (herald photons excluded; fix 35b3f09) *)
+  Definition an_nphotons (inputs : list state) : nat := Z.to_nat (zsum (hd [] inputs)).
 
-  Definition analyze (n l : nat) (U : mat) (hin hout : hdict) (ps : state -> res bool)
+  (* everything analyze() does after its herald guard *)
+  Definition analyze_body (n l : nat) (U : mat) (hin hout : hdict) (ps : state -> res bool)
              (inputs : list state) (expected : option expected_t) : res an_result :=
     let m := n - length hin in
-    if negb (hd_eqb hin hout) then Err OtherError else          (* RuntimeError *)
     do fins <- an_process_inputs m l hin inputs;
-    do outs <- an_generate_outputs ps m l (an_nphotons fins) hout;
+    do outs <- an_generate_outputs ps m l (an_nphotons inputs) hout;
     do probs <- an_probs l U fins outs;
     let perf := kdivn (ksum (map ksum probs)) (length fins) in
     do er <- match expected with
@@ -186,6 +187,13 @@ Section Analyzer.
              | Some e => do x <- an_error_rate probs inputs (map fst outs) e; Ok (Some x)
              end;
     Ok (mkAR (map fst outs) (map snd outs) probs perf er).
+
+  (* analyze(): `if len(heralds["input"]) != len(heralds["output"]): raise RuntimeError`
+     (fix e8102ee: the NUMBER of heralds is compared, not the dictionaries) *)
+  Definition analyze (n l : nat) (U : mat) (hin hout : hdict) (ps : state -> res bool)
+             (inputs : list state) (expected : option expected_t) : res an_result :=
+    if negb (Nat.eqb (length hin) (length hout)) then Err OtherError    (* RuntimeError *)
+    else analyze_body n l U hin hout ps inputs expected.
 
   (* ---------------- QuickSampler ---------------- *)
   (* input_state setter *)
